@@ -13,6 +13,7 @@ Case:  transport pipe|socket|mem, sflags [readable, writable], wo (write script)
 A case {"probe": "huge"|"objects", ...} runs a direct check instead.
 """
 import array
+import ctypes
 import errno
 import json
 import mmap
@@ -79,7 +80,15 @@ def classify(exc):
                 and getattr(exc, 'injected', False):
             return 106, b''
         return OSERR.get(str(exc), 100), b''
+    if isinstance(exc, Runaway):
+        return 701, b''
+    if isinstance(exc, TypeError):
+        return (601 if '0-dim memory has no length' in str(exc) else 600), b''
     return 900, repr(exc).encode()[:60]
+
+
+class Runaway(RuntimeError):
+    """the write-all loop keeps calling write() although nothing is left to write"""
 
 
 def injected(code):
@@ -97,7 +106,9 @@ class OConn(Connection):
         # a correct loop makes at most one call per script entry plus a few per
         # operation; far beyond that the loop is running away (bounded, reported)
         self.max_calls = 4 * (len(self.wo) + len(self.ro) + 8 * (nops + 1)) + 64
-        self.wtrace = []
+        self.wtrace = []             # BYTES offered at each write() call
+        self.wfree = []              # per call: True when the script was already used up
+        self.send_start = 0
         self.rtrace = []
         self.accepted = bytearray()
         self.consumed = 0
@@ -106,16 +117,32 @@ class OConn(Connection):
         return self
 
     def _w(self, fd, buf):
-        if len(self.wtrace) >= self.max_calls:
-            raise RuntimeError('runaway _send loop')
-        self.wtrace.append(len(buf))
+        # os.write() takes any C-contiguous buffer and writes its BYTES, whatever
+        # its shape; len(buf) would be the first dimension
+        mv = buf if isinstance(buf, memoryview) else memoryview(buf)
+        nb = mv.nbytes
+        if len(self.wtrace) - self.send_start >= self.max_calls:
+            # keep what a terminating observer can see of this _send call: the calls
+            # answered by the script, and the first cooperative call if it moved bytes
+            i = self.send_start
+            while i < len(self.wfree) and not self.wfree[i]:
+                i += 1
+            keep = i + 1 if i < len(self.wtrace) and self.wtrace[i] > 0 else i
+            del self.wtrace[keep:]
+            del self.wfree[keep:]
+            raise Runaway('runaway _send loop')
+        self.wtrace.append(nb)
         r = self.wo.pop(0) if self.wo else None
+        self.wfree.append(r is None)
         if r is not None and r[0] == 'i':
             raise OSError(errno.EINTR, 'Interrupted system call')
         if r is not None and r[0] == 'e':
             raise injected(errno.EPIPE)
-        k = len(buf) if r is None else min(max(1, r[1]), len(buf))
-        data = bytes(buf[:k])
+        k = nb if r is None else min(max(1, r[1]), nb)
+        if mv.ndim == 1 and mv.itemsize == 1:
+            data = bytes(mv[:k])
+        else:
+            data = mv.tobytes()[:k]
         if self.mem_out is not None:
             self.mem_out += data
         else:
@@ -150,6 +177,7 @@ class OConn(Connection):
         return out
 
     def _send(self, buf):
+        self.send_start = len(self.wtrace)
         return Connection._send(self, buf, write=self._w)
 
     def _recv(self, size):
@@ -160,7 +188,33 @@ def flags(c):
     return [bool(c.closed), bool(c.readable), bool(c.writable)]
 
 
+CT = {1: ctypes.c_ubyte, 2: ctypes.c_uint16, 4: ctypes.c_uint32, 8: ctypes.c_uint64}
+TC = {1: 'B', 2: 'H', 4: 'I', 8: 'Q'}
+
+
+def make_shaped(data, how, it, shape):
+    """a C-contiguous buffer object with the given item size and shape over `data`"""
+    shape = list(shape)
+    if how == 'ctypes':                   # nested ctypes arrays (a scalar for shape [])
+        t = CT[it]
+        for d in reversed(shape):
+            t = t * d
+        buf = t.from_buffer_copy(data) if len(data) else t()
+    else:
+        base = {'mvcast': bytes, 'bytearraycast': bytearray,
+                'arraycast': lambda d: array.array('B', bytes(d))}[how](data)
+        buf = memoryview(base)
+        if it > 1 or len(shape) != 1:
+            buf = buf.cast(TC[it], shape=shape) if it > 1 else buf.cast('B', shape=shape)
+    m = memoryview(buf)
+    if not (m.itemsize == it and list(m.shape) == shape and m.nbytes == len(data) and m.c_contiguous):
+        raise AssertionError('harness: built %r, wanted item %d shape %r' % (m, it, shape))
+    return buf
+
+
 def make_buf(data, kind):
+    if isinstance(kind, list):           # ['shaped', how, itemsize, shape]
+        return make_shaped(data, kind[1], kind[2], kind[3])
     if kind == 'bytes':
         return data
     if kind == 'bytearray':
@@ -266,9 +320,11 @@ def run_receiver(c, stream):
                     if not isinstance(data, bytes):
                         code, data = 900, repr(type(data)).encode()
                 else:
-                    _, spec, it, off = op
+                    spec, it, off = op[1], op[2], op[3]
                     raw = expand(spec)
-                    if ITEM[it] is None:
+                    if len(op) > 4:            # ['into', spec, it, off, how, shape]: a shaped buffer
+                        buf = make_shaped(bytearray(raw) if op[4] != 'ctypes' else raw, op[4], it, op[5])
+                    elif ITEM[it] is None:
                         buf = bytearray(raw)
                     else:
                         buf = array.array(ITEM[it])
@@ -277,7 +333,7 @@ def run_receiver(c, stream):
                     try:
                         ret = conn.recv_bytes_into(buf, off)
                     finally:
-                        bufafter = bytes(buf) if ITEM[it] is None else buf.tobytes()
+                        bufafter = memoryview(buf).tobytes()
             except BaseException as exc:    # noqa
                 code, data = classify(exc)
                 ret = -1
